@@ -40,6 +40,11 @@ def eff_mode(rec, mode, light):
     return light if (rec.dry and mode in HEAVY) else mode
 
 
+def is_nonfinite_exc(ex):
+    msg = str(ex)
+    return isinstance(ex, (FloatingPointError, ZeroDivisionError)) or "infs or NaNs" in msg or "contain NaN" in msg or "did not converge" in msg
+
+
 def exc_info(ex):
     tb = traceback.extract_tb(ex.__traceback__)
     return (str(ex)[:160] + " @ " + " < ".join("%s:%d" % (f.name, f.lineno) for f in tb[-4:]))[:400]
@@ -248,6 +253,7 @@ class Lattice:
         self.rng, self.tid, self.kind = rng, tid, kind
         self.recs = []
         self.nruns = 0
+        self.degenerate = 0
         self.skipped = 0
         self.watch_value = True
         g = np.random.default_rng(rng.randrange(1 << 30))
@@ -257,7 +263,9 @@ class Lattice:
         self.nl = 1
         self.Lx = self.Ly = 0
         out = []
-        for vals in U.VALSETS:
+        trials = [(v, self.cplx) for v in U.VALSETS] + ([(v, False) for v in U.VALSETS[2:]] if self.cplx else [])
+        for vals, cplx_ in trials:
+            self.cplx = cplx_
             if kind == "2d":
                 self.Lx, self.Ly = kw["Lx"], kw["Ly"]
                 self.cyc = kw.get("cyc", (False, False))
@@ -358,11 +366,17 @@ class Lattice:
                 except Exception as ex:  # noqa - an exception of quimb is an observation
                     ret["exc"] = type(ex).__name__
                     ret["excmsg"] = exc_info(ex)
-        self.recs += rec.events
+                    if is_nonfinite_exc(ex):
+                        ret["degenerate"] = True
         ret["steps"] = list(rec.steps)
         if model is not None:
             ret.update(model)
         if want == "envs":
+            if ret.get("degenerate"):
+                self.degenerate += 1
+                for r in rec.events:
+                    r["degenerate"] = True
+            self.recs += rec.events
             return res, ret, base
         if ret["exc"] == "":
             try:
@@ -379,6 +393,15 @@ class Lattice:
             except Exception:  # noqa
                 v = None
             U.put_value(ret, "result", v)
+            if v is not None and not np.isfinite(complex(v)):
+                ret["degenerate"] = True
+        if ret.get("degenerate"):
+            # the scheme produced non-finite numbers (an exactly singular bond met a pseudo-inverse with cutoff=0):
+            # numerically degenerate input, not judged (counted)
+            self.degenerate += 1
+            for r in rec.events:
+                r["degenerate"] = True
+        self.recs += rec.events
         self.recs.append(ret)
         return res, ret, base
 
@@ -490,7 +513,7 @@ def boundary_jobs_2d(lat, rng, n, modes=None):
             mode = rng.choice(allmodes)
             cfg["mode"] = mode
             seq = rng.choice(SEQS_2D)
-            closed = rng.random() < 0.3 and seq is not None and len({d[0] for d in U_seq(seq)}) == 1
+            closed = rng.random() < 0.3 and seq is not None and len({d[0] for d in U_seq(seq)}) == 1 and not cyc
             cfg["sequence"] = seq
             cfg["closed"] = closed
             opts = {}
@@ -554,7 +577,7 @@ def boundary_jobs_2d(lat, rng, n, modes=None):
             k = rng.randrange(1, L)
             rg = (0, k) if "min" in side else (L - 1 - k, L - 1)
             mode = rng.choice(MODES_2D_CORE * 3 + MODES_1D + MODES_AG)
-            cfg = {"mode": mode, "side": side, "range": rg}
+            cfg = {"mode": mode, "side": side, "range": rg, "closed": k == L - 1}
             if layered and mode not in ("full-bond", "projector2d") and rng.random() < 0.6:
                 cfg["layer_tags"] = rng.choice([("KET", "BRA"), ("BRA", "KET")])
             if mode == "mps" and rng.random() < 0.5:
@@ -784,19 +807,38 @@ def make_lattices(rng, tier):
     """the lattices of this run: (kind, kwargs, number of jobs of each family)"""
     out = []
 
-    def grid(Lx, Ly, choices, budget=8192, cyc=(False, False)):
+    def grid(Lx, Ly, choices, budget=8192, cyc=(False, False), physch=None):
+        """bond sizes within the label budget and structurally full rank: no bond is larger than the product of
+        the other dimensions of either tensor it joins (otherwise it has exactly zero singular values, and the
+        gauge-inverting schemes meet 1/0 when no cutoff is applied)"""
         while True:
             hb = [rsizes(rng, Ly, choices) for _ in range(Lx)]
             vb = [rsizes(rng, Ly, choices) for _ in range(Lx)]
-            used = []
+            phys = [rsizes(rng, Ly, physch) for _ in range(Lx)] if physch else None
+            used, ok = [], True
             for i in range(Lx):
                 for j in range(Ly):
                     if j < Ly - 1 or cyc[1]:
                         used.append(hb[i][j])
                     if i < Lx - 1 or cyc[0]:
                         used.append(vb[i][j])
-            if U.dims_budget(used, budget):
-                return hb, vb
+                    dims = []
+                    if j > 0 or cyc[1]:
+                        dims.append(hb[i][(j - 1) % Ly])
+                    if j < Ly - 1 or cyc[1]:
+                        dims.append(hb[i][j])
+                    if i < Lx - 1 or cyc[0]:
+                        dims.append(vb[i][j])
+                    if i > 0 or cyc[0]:
+                        dims.append(vb[(i - 1) % Lx][j])
+                    if phys:
+                        dims.append(phys[i][j])
+                    tot = 1
+                    for d in dims:
+                        tot *= d
+                    ok = ok and all(d * d <= tot for d in dims)
+            if ok and U.dims_budget(used, budget) and (not physch or U.dims_budget([d for row in phys for d in row], 16)):
+                return (hb, vb, phys) if physch else (hb, vb)
 
     q = tier == "quick"
     k = 1 if q else 4
@@ -812,22 +854,47 @@ def make_lattices(rng, tier):
         out.append(("2d", dict(Lx=Lx, Ly=Ly, hb=hb, vb=vb, cyc=cyc), dict(boundary=12 if q else 30, around=0, env=0, comp=2)))
         out.append(("peps", dict(Lx=2, Ly=rng.choice([2, 3]) if not q else 2, D=2, p=2, cplx=True), dict(boundary=8 if q else 25, around=0, env=5 if q else 12, comp=0)))
         Lx, Ly = rng.choice([(3, 2), (2, 3), (3, 3)]) if not q else rng.choice([(3, 2), (2, 3)])
-        hb, vb = grid(Lx, Ly, [2, 1, 1] if Lx * Ly > 6 else [2, 2, 1], budget=256)
-        phys = [rsizes(rng, Ly, [2, 1, 1] if Lx * Ly > 6 else [2, 1]) for _ in range(Lx)]
+        hb, vb, phys = grid(Lx, Ly, [2, 1, 1] if Lx * Ly > 6 else [2, 2, 1], budget=256, physch=[2, 1, 1] if Lx * Ly > 6 else [2, 1])
         out.append(("layered", dict(Lx=Lx, Ly=Ly, hb=hb, vb=vb, phys=phys, cplx=bool(rep % 2)), dict(boundary=14 if q else 40, around=2, env=5 if q else 12, comp=0)))
         dims = rng.choice([(2, 2, 2), (3, 2, 2), (2, 2, 3), (2, 3, 2)]) if not q else (2, 2, 2)
         ch = [2] if dims == (2, 2, 2) else [2, 1, 1]
-        tab = {}
+        import itertools
+        while True:
+            tab = {(ax, coo): rng.choice(ch) for ax in range(3) for coo in itertools.product(*[range(d) for d in dims])}
+            ok = True
+            for coo in itertools.product(*[range(d) for d in dims]):
+                ds = []
+                for ax in range(3):
+                    if coo[ax] < dims[ax] - 1:
+                        ds.append(tab[(ax, coo)])
+                    if coo[ax] > 0:
+                        pc = list(coo); pc[ax] -= 1
+                        ds.append(tab[(ax, tuple(pc))])
+                tot = 1
+                for d in ds:
+                    tot *= d
+                ok = ok and all(d * d <= tot for d in ds)
+            if ok:
+                break
 
-        def bsz(ax, coo, tab=tab, ch=ch):
-            if (ax, coo) not in tab:
-                tab[(ax, coo)] = rng.choice(ch)
+        def bsz(ax, coo, tab=tab):
             return tab[(ax, coo)]
         out.append(("3d", dict(dims=dims, bsz=bsz), dict(boundary3d=12 if q else 36, comp=2)))
-        n = rng.choice([5, 6])
-        m = rng.choice([n + 1, n + 2, n + 3])
-        ge = U.random_connected_graph(rng, n, m)
-        out.append(("graph", dict(n=n, gedges=ge, sizes=rsizes(rng, m, [2, 2, 3, 1]), cplx=bool(rep % 2)), dict(comp=14 if q else 40)))
+        while True:
+            n = rng.choice([5, 6])
+            m = rng.choice([n + 1, n + 2, n + 3])
+            ge = U.random_connected_graph(rng, n, m)
+            sizes = rsizes(rng, m, [2, 2, 3, 1])
+            ok = True
+            for k in range(n):
+                ds = [sz for (a, b), sz in zip(ge, sizes) if k in (a, b)]
+                tot = 1
+                for d in ds:
+                    tot *= d
+                ok = ok and all(d * d <= tot for d in ds)
+            if ok:
+                break
+        out.append(("graph", dict(n=n, gedges=ge, sizes=sizes, cplx=bool(rep % 2)), dict(comp=14 if q else 40)))
     return out
 
 
@@ -838,7 +905,7 @@ def run(ctx):
 
     mfails = model_cases(ctx, random.Random(77 + ctx.seed))
 
-    stats, recs, nlat = {}, [], 0
+    stats, recs, nlat, ndeg = {}, [], 0, 0
     kinds = {}
     for kind, kw, nj in make_lattices(random.Random(99 + ctx.seed), ctx.tier):
         rng = random.Random(1212 + 1000 * ctx.seed + nlat)        # every lattice is reproducible on its own
@@ -853,6 +920,8 @@ def run(ctx):
             run_jobs(lat, rng, boundary_jobs_3d(lat, rng, nj.get("boundary3d", 0)), stats)
         run_jobs(lat, rng, compressed_jobs(lat, rng, nj.get("comp", 0)), stats)
         recs += lat.finish()
+        ndeg += lat.degenerate
+    ctx.extra["degenerate_runs_not_judged"] = ndeg
     ctx.extra["lattices"] = kinds
     ctx.extra["configurations_run"] = stats
     modes = {}
